@@ -11,4 +11,6 @@ CONTROLS = [
     dict(name="function emitter takes defaults from a differently filtered tuple",
          edits=[("cdd/function/emit.py", '            lambda param: not param[0].endswith("kwargs"),\n            intermediate_repr["params"].items(),', '            lambda param: not param[0].endswith("kwargs") and not param[0].startswith("_"),\n            intermediate_repr["params"].items(),')],
          expect=r"function/one-arg-per-non-kwargs-parameter"),
+    dict(name="BENIGN: class emitter materialises the parameter items first (same elements, same order)", benign=True,
+         edits=[("cdd/class_/emit.py", '                            (intermediate_repr.get("params") or OrderedDict()).items(),', '                            list((intermediate_repr.get("params") or OrderedDict()).items()),')]),
 ]
